@@ -244,6 +244,8 @@ static Case gen_keeper_program(Chooser& ch) {
     if (ne > 0 && ch.chance(3, 4)) O(Op("SY"));
     if (ch.chance(1, 3)) O(Op("HC").u("h", hcur).u("force", 0)); else if (ch.chance(1, 4)) O(Op("GN").u("h", hcur).u("k", ch.range(30, 120)).u("n", 5000));
     O(Op("FILL").u("ref", (uint64_t)keeper).u("base", (uint64_t)base).u("max", (uint64_t)(W - 12)).u("extra", ch.pick(4)).u("n", n).u("h", hcur));
+    // exactly one remote free into a page that is full with every block live, then the reuse probe: the page must come back from the full queue
+    if (ch.chance(1, 3)) { int s1 = base + (int)ch.pick((size_t)a0); if (s1 != keeper) { O(Op("POST").u("s", (uint64_t)s1).u("h", hcur)); O(Op("SY")); if (ch.chance(1, 2)) O(Op("HC").u("h", hcur).u("force", 0)); O(Op("RP").u("h", hcur).u("n", n)); } }
     if (r == rdel && hcur == 1) { O(Op("HD").u("h", 1)); hcur = 0; }
     Op post("POST"); post.u("lo", (uint64_t)base).u("hi", (uint64_t)(base + W)).u("keep", (uint64_t)keeper).u("h", hcur); if (ch.chance(1, 4)) post.u("keep2", (uint64_t)(base + (int)ch.pick((size_t)W - 12))); O(post);
     if (r >= K) { int ob = ((r - K) % regions) * W; O(Op("POST").u("lo", (uint64_t)ob).u("hi", (uint64_t)(ob + W)).u("h", hcur)); }
